@@ -37,6 +37,7 @@ RmF(ch, isres, p, ms)    == [op |-> "remove", pat |-> p, methods |-> ms, mws |->
 ClF(ch, isres)           == [op |-> "clean", pat |-> "", methods |-> <<>>, mws |-> <<>>, chain |-> ch, res |-> isres]
 UrlP(via, strict, ch, isres, p, ps) == [op |-> "url", key |-> via, strict |-> strict, pat |-> p, params |-> ps, chain |-> ch, res |-> isres]
 Pf(p, mw) == [p |-> p, mws |-> mw]
+Misc(ch, isres) == [op |-> "misc", chain |-> ch, res |-> isres, pat |-> "", methods |-> <<>>, mws |-> <<>>]
 MkF(fid, ch, isres) == [op |-> "facade", fid |-> fid, chain |-> ch, res |-> isres, pat |-> "", methods |-> <<>>, mws |-> <<>>]
 HFo(fid, ch, isres, p, ms, mw) == HF(ch, isres, p, ms, mw) @@ [fid |-> fid]
 NoUrls == <<>>
@@ -63,7 +64,7 @@ OpPat(o) == FacadePat(o.chain, o.res, o.pat)
 RECURSIVE ApplyBase(_, _, _)
 ApplyBase(R, ops, i) ==
   IF i > Len(ops) THEN R
-  ELSE IF ops[i].op = "facade" THEN ApplyBase(R, ops, i + 1)
+  ELSE IF ops[i].op \in {"facade", "misc"} THEN ApplyBase(R, ops, i + 1)
   ELSE IF ops[i].op = "use" THEN ApplyBase(DoUse(R, ops[i].mws), ops, i + 1)
   ELSE ApplyBase(DoHandle(R, OpPat(ops[i]), Hid(OpPat(ops[i]), ops[i].methods), FacadeMws(ops[i].chain, ops[i].mws), ops[i].methods), ops, i + 1)
 
@@ -73,7 +74,7 @@ Init == \E c \in Cfgs, b \in Bases :
 
 \* a call through a long-lived facade object needs the object to have been created
 Created(o) == ("fid" \in DOMAIN o /\ o.fid # "") => \E i \in 1..Len(hist) : hist[i].op = "facade" /\ hist[i].fid = o.fid
-Mk(o) == /\ ~(\E i \in 1..Len(hist) : hist[i].op = "facade" /\ hist[i].fid = o.fid)
+Mk(o) == /\ (o.op = "facade" => ~(\E i \in 1..Len(hist) : hist[i].op = "facade" /\ hist[i].fid = o.fid))
          /\ UNCHANGED <<rt>> /\ prevRt' = rt /\ last' = "facade" /\ hist' = Append(hist, o)
 Handle(o) ==
   /\ Created(o)
